@@ -8,11 +8,11 @@ CONSTANTS
   NMon = 1
   NTr = 1
   AsIs_D1 = FALSE
-  AsIs_D4 = FALSE
-  MShapes = {5}
-  MArgs = {0, 1}
-  MTermIds = {2, 3}
-  MBoundIds = {2, 3, 5}
+  AsIs_D4 = TRUE
+  MShapes = {2}
+  MArgs = {0}
+  MTermIds = {1, 2}
+  MBoundIds = {1, 2, 4}
   MFns = {1}
   MaxCreate = 2
   MaxN = 3
@@ -22,7 +22,7 @@ CONSTANTS
   UseMonitors = FALSE
   UseWith = FALSE
   UseTracers = FALSE
-  UseReporters = FALSE
+  UseReporters = TRUE
 CONSTRAINT Bounded
 INVARIANT Inv_All
 CHECK_DEADLOCK FALSE
